@@ -3,7 +3,7 @@
 Unit description: units/<unit>/unit.py defines UNIT (dict). Contract overlay: units/<unit>/contracts.rs with
 `//@` section markers. See DESIGN §2/§3.
 """
-import hashlib, importlib.util, os, re
+import hashlib, importlib.util, os, re, sys
 from .tok import Tok, T, tokenize, match_table, render, ExtractError, pat, text_of, find_seq, find_all_seq
 from . import rules as R
 
@@ -52,7 +52,7 @@ def parse_overlay(path):
         return ln
     blockname = None
     blockbuf = []
-    for ln in open(path).read().split("\n"):
+    for ln in R.expand_lits(open(path).read()).split("\n"):
         if ln.startswith("//@ defblock "):
             blockname = ln.split()[2]; blockbuf = []; continue
         if blockname is not None:
@@ -245,6 +245,12 @@ def extract(unit, ex):
             frag = R.r11_question(frag, st)
         if cfg.get("option_unfold"):
             frag = R.r10_option_unfold(frag, st)
+        if cfg.get("drop_nested_fns"):
+            frag = R.drop_nested_fns(frag, st)
+        if cfg.get("array_idioms"):
+            frag = R.r10_array_idioms(frag, st)
+        if cfg.get("strlit"):
+            frag = R.r9_strlit(frag, st, cfg["strlit"])
         if cfg.get("outline"):
             frag = R.r14_outline(frag, st, cfg["outline"])
         if cfg.get("select"):
@@ -366,6 +372,7 @@ class Generated:
         self.origin = []      # per line: None or (item_id, src_rel, src_line)
         self.items = []       # info dicts
         self.body_ranges = {} # item_id -> (first_line_idx, last_line_idx) of body
+        self.item_ranges = {} # item_id -> (first_line_idx of header, last_line_idx)
     def add(self, text, origin=None):
         for ln in text.split("\n"):
             self.lines.append(ln); self.origin.append(origin)
@@ -389,7 +396,10 @@ def build_unit(name, canary=None):
         g.add(open(os.path.join(VERIF, "prelude", p)).read())
     for p in unit.get("spec", []):
         g.add("// ---- units/%s/%s ----" % (name, p))
-        g.add(open(os.path.join(unit["dir"], p)).read())
+        g.add(R.expand_lits(open(os.path.join(unit["dir"], p)).read()))
+    for hook in unit.get("gen_spec", []):
+        g.add("// ---- generated spec (%s) ----" % hook.__name__)
+        g.add(hook(sys.modules[__name__], R))
     extracted = {}
     for iid in order:
         ov = ov_items[iid]
@@ -429,6 +439,7 @@ def build_unit(name, canary=None):
         frag = splice_closures(frag, ov, info)
         frag = splice_loops(frag, ov, info)
         wrap = ex.get("emit_impl", ex.get("impl"))
+        item_start = len(g.lines)
         if wrap: g.add(wrap + " {")
         g.add(hdr)
         g.add("{")
@@ -461,6 +472,7 @@ def build_unit(name, canary=None):
         if ov["epilogue"]: g.add(ov["epilogue"])
         g.add("}")
         if wrap: g.add("}")
+        g.item_ranges[iid] = (item_start, len(g.lines) - 1)
         g.items.append(info)
     g.add("} // verus!")
     g.add("fn main() {}")
